@@ -241,6 +241,8 @@ func (c *Conn) writeControl(ctx context.Context, opcode opcode, p []byte) error 
 	return nil
 }
 
+var errCloseSent = errors.New("close frame already sent")
+
 // writeFrame handles all writes to the connection.
 func (c *Conn) writeFrame(ctx context.Context, fin bool, flate bool, opcode opcode, p []byte) (_ int, err error) {
 	err = c.writeFrameMu.lock(ctx)
@@ -248,6 +250,12 @@ func (c *Conn) writeFrame(ctx context.Context, fin bool, flate bool, opcode opco
 		return 0, err
 	}
 	defer c.writeFrameMu.unlock()
+
+	// RFC 6455 section 5.5.1: once a close frame has been sent, no data frame
+	// and no second close frame may follow it.
+	if c.closeSent && opcode != opPing && opcode != opPong {
+		return 0, fmt.Errorf("failed to write frame: %w", errCloseSent)
+	}
 
 	select {
 	case <-c.closed:
@@ -267,6 +275,10 @@ func (c *Conn) writeFrame(ctx context.Context, fin bool, flate bool, opcode opco
 			err = fmt.Errorf("failed to write frame: %w", err)
 		}
 	}()
+
+	if opcode == opClose {
+		c.closeSent = true
+	}
 
 	c.writeHeader.fin = fin
 	c.writeHeader.opcode = opcode
